@@ -41,6 +41,8 @@ def main():
                 print(r.stdout[-2000:])
     finally:
         sh('git -C /repo checkout -- .')
+        # evidence written while a change was applied is not evidence about /repo: put the committed files back
+        sh(f'git -C {ROOT} checkout -- evidence')
         left = sh('git -C /repo status --porcelain').stdout.strip()
         if left:
             print('WARNING: /repo not clean after undo:', left)
